@@ -1515,10 +1515,11 @@ class ExecutionTracer(AbstractExecutionTracer):  # noqa: PLR0904
             # Might be necessary when using Proxies.
             value = tt.unwrap(value)
             if value:
-                if isinstance(value, Sized):
-                    # Sized instances evaluate to False if they are empty,
-                    # and to True otherwise, thus we can use their size as a distance
-                    # measurement.
+                if isinstance(value, Sized) and not hasattr(type(value), "__bool__"):
+                    # Sized instances without `__bool__` evaluate to False if they are
+                    # empty, and to True otherwise, thus we can use their size as a
+                    # distance measurement. If `__bool__` exists, it alone decides, and
+                    # `__len__` is neither called by the truth test nor related to it.
                     distance_false = len(value)
                 elif is_numeric(value):
                     # For numeric value, we can use their absolute value
